@@ -9,7 +9,8 @@ from trashcli.fstab.volume_of import VolumeOf
 from trashcli.fstab.volumes import Volumes
 from trashcli.lib.environ import Environ
 from trashcli.lib.trash_dirs import (
-    volume_trash_dir1, volume_trash_dir2, home_trash_dir)
+    volume_trash_dir1, volume_trash_dir2, home_trash_dir,
+    home_trash_dir_path_from_env)
 from trashcli.trash_dirs_scanner import TopTrashDirRules, top_trash_dir_valid
 
 
@@ -34,6 +35,7 @@ class TrashDirectoriesImpl(TrashDirectories):
         self.trash_directories2 = TrashDirectories2(volumes,
                                                     trash_directories1)
         self.uid = uid
+        self.environ = environ
         self.top_trash_dir_rules = TopTrashDirRules(
             RealTopTrashDirRulesReader())
 
@@ -44,7 +46,11 @@ class TrashDirectoriesImpl(TrashDirectories):
             trash_dir_from_cli)
         if trash_dir_from_cli:
             return trash_dirs
-        return [(path, volume) for path, volume in trash_dirs
+        # like trash-list, trash-rm and trash-empty, resolve a relative Path
+        # found in the home trash directory against '/'
+        home_trash_dirs = home_trash_dir_path_from_env(self.environ)
+        return [(path, '/' if path in home_trash_dirs else volume)
+                for path, volume in trash_dirs
                 if self._can_be_read(path, volume)]
 
     def _can_be_read(self, path, volume):
